@@ -61,25 +61,55 @@ func c09(p *Prog, r *Report) {
 			t := s.Of(v).String()
 			return strings.HasPrefix(t, "call<encoding/hex.EncodeToString>(") || strings.HasPrefix(t, "conv<string>(")
 		}
+		// in a helper of FinalizeIndex the key is judged at the call: the helper's
+		// parameter must be handed an injective encoding by FinalizeIndex, its only caller
+		injAt := func(f *ssa.Function, v ssa.Value) bool {
+			if f == fin {
+				return inj(v)
+			}
+			pa, ok := v.(*ssa.Parameter)
+			if !ok || pa.Parent() != f {
+				return false
+			}
+			k := -1
+			for i, q := range f.Params {
+				if q == pa {
+					k = i
+				}
+			}
+			sites := 0
+			for _, g := range p.ModuleFuncs() {
+				for _, b := range g.Blocks {
+					for _, in := range b.Instrs {
+						c, ok := in.(ssa.CallInstruction)
+						if !ok || c.Common().StaticCallee() != f {
+							continue
+						}
+						if g != fin || k < 0 || k >= len(c.Common().Args) || !inj(c.Common().Args[k]) {
+							return false
+						}
+						sites++
+					}
+				}
+			}
+			return sites > 0
+		}
 		for _, f := range p.ModuleFuncs() {
 			for _, b := range f.Blocks {
 				for _, in := range b.Instrs {
 					switch x := in.(type) {
 					case *ssa.MapUpdate:
-						if fld, ok := clientStateField(x.Map); ok && f == fin {
+						if fld, ok := clientStateField(x.Map); ok {
 							n++
-							if !inj(x.Key) || (isByteSliceOrString(x.Value.Type()) && !inj(x.Value)) {
-								bad = "ClientState." + fld + " entry at " + p.InstrPos(x) + " is keyed or valued by " + clip(s.Of(x.Key).String(), 120) + " / " + clip(s.Of(x.Value).String(), 120)
+							if !injAt(f, x.Key) || (isByteSliceOrString(x.Value.Type()) && !injAt(f, x.Value)) {
+								bad = "ClientState." + fld + " entry at " + p.InstrPos(x) + " is keyed or valued by something other than hex.EncodeToString/string of the identifier"
 							}
-						} else if ok {
-							n++
-							bad = "ClientState." + fld + " updated outside FinalizeIndex at " + p.InstrPos(x)
 						}
 					case *ssa.Lookup:
-						if fld, ok := clientStateField(x.X); ok && f == fin {
+						if fld, ok := clientStateField(x.X); ok {
 							n++
-							if !inj(x.Index) {
-								bad = "ClientState." + fld + " looked up at " + p.InstrPos(x) + " by " + clip(s.Of(x.Index).String(), 120)
+							if !injAt(f, x.Index) {
+								bad = "ClientState." + fld + " looked up at " + p.InstrPos(x) + " by something other than hex.EncodeToString/string of the identifier"
 							}
 						}
 					}
